@@ -389,7 +389,10 @@ def main(argv=None):
     except HarnessError as e:
         print('HARNESS-ERROR property=%s %s' % (pid, e))
         return 2
-    except Exception:  # pylint: disable=broad-except
+    except Exception as e:  # pylint: disable=broad-except
+        if type(e).__name__ == 'LostControl':
+            print('HARNESS-ERROR property=%s %s' % (pid, e))
+            return 2
         traceback.print_exc()
         print('HARNESS-ERROR property=%s unexpected exception in the harness' % pid)
         return 2
